@@ -31,6 +31,7 @@ def run(ctx):
     ctx.do(SI.rule_cm1)
     ctx.do(X.rule_geo1)
     ctx.do(X.rule_lex1)
+    ctx.do(X.rule_bfs4)
     ctx.do(X.rule_tol2)
     ctx.do(X.rule_sent1, [CA, COX])
     ctx.do(n1, [COX], lookup_rels=[COX])
